@@ -116,7 +116,9 @@ class Obl(object):
 class Spec(object):
     """contract of one helper: callables over states returning lists of z3 formulas"""
 
-    def __init__(self, name, requires, ensures, invariants=None, decreases=None, pure=False, lemmas=None, loop_lemmas=None):
+    def __init__(self, name, requires, ensures, invariants=None, decreases=None, pure=False, lemmas=None, loop_lemmas=None,
+                 call_lemmas=None):
+        self.call_lemmas = call_lemmas or {}   # callee -> (S0, S, result) -> [(label, formula)] proved right after the call
         self.loop_lemmas = loop_lemmas or {}   # ordinal -> (S0, S) -> [(label, formula)] proved at the head of the body
         self.name, self.requires, self.ensures = name, requires, ensures
         self.lemmas = lemmas      # (S0, S, result) -> [(label, formula)]: proved in order at each exit, then usable
@@ -655,6 +657,14 @@ class Exec(object):
             res = CInt(fresh(name + "_result"), "int") if fn.rtype.stars == 0 else CPtr(fresh("rb"), fresh("ro"))
             for label, g in sp.ensures(cs, cs, res):
                 st.pc.append(g)
+            if name in self.spec.call_lemmas:
+                for label, g in self.spec.call_lemmas[name](self.entry, st, res):
+                    if label.startswith("define:"):
+                        # instance of the defining axiom of a (total) specification function: assumed, listed
+                        st.pc.append(g)
+                        self.assumptions.add("definitional axiom instantiated: " + label[7:])
+                    else:
+                        self.oblige(st, "lemma:" + label, g, label)
             return res
         raise CSubsetError("call of %s" % name)
 
